@@ -150,6 +150,11 @@ def check(tier: str) -> int:
     run.require_actions(["DoMaterialise", "Step", "Publish"])
     _replay(run, "Sweep.all.emit")
     _replay(run, "Sweep.noctx.emit")
+    if tier == "thorough":
+        res3 = tlc.run_tlc("MC_Sweep", "Sweep.three.check", coverage=True, timeout=3000)
+        run.add_tlc(res3)
+        run.require_tlc_ok(res3, "Sweep.three.check")
+        _replay(run, "Sweep.three.emit")
     if set(run.extra.get("cases_by_kind", {})) != {"src", "op", "probe"}:
         raise core.MachineryError("vacuity: not all three wrapped kinds were exercised")
     run.sample({"spec": "probe, by_position + broadcast, t in [1,2], u in log 1..100", "node": g_sweep({"kind": "probe", "vars": {"t": {"t": "seq", "vals": [1, 2]}}, "mode": "bp", "bc": True, "expr": "2*t", "bplace": "default"})[-1]})
